@@ -6,6 +6,7 @@
 #include <stdarg.h>
 #include <sys/mman.h>
 #include <sys/stat.h>
+#include <sys/time.h>
 #include <unistd.h>
 
 #include <fstream>
@@ -253,6 +254,8 @@ static void asan_cb(const char *report) {
 static sigjmp_buf guard_env;
 static volatile sig_atomic_t guard_armed = 0;
 static volatile sig_atomic_t guard_sig = 0;
+int guard_budget_s = 40;
+static struct BudgetInit { BudgetInit() { if (const char *e = getenv("VERIF_GUARD_S")) guard_budget_s = atoi(e); } } budget_init;
 
 static void on_fatal(int sig) {
   if (guard_armed) {
@@ -283,23 +286,40 @@ static void install_handlers() {
   memset(&sa, 0, sizeof sa);
   sa.sa_handler = on_fatal;
   sa.sa_flags = SA_NODEFER | SA_ONSTACK;
-  int sigs[] = {SIGSEGV, SIGBUS, SIGFPE, SIGILL, SIGABRT};
+  int sigs[] = {SIGSEGV, SIGBUS, SIGFPE, SIGILL, SIGABRT, SIGVTALRM};
   for (int sg : sigs) sigaction(sg, &sa, nullptr);
 }
 
 bool guarded(const std::function<void()> &f) {
   if (!catching()) { f(); return true; }
+  // watchdog in CPU time of this process (machine load cannot trigger it): library calls take
+  // micro- to milliseconds, constructions of the largest generated inputs a few seconds
+  struct itimerval tv, off;
+  memset(&tv, 0, sizeof tv);
+  memset(&off, 0, sizeof off);
+  tv.it_value.tv_sec = guard_budget_s;
   if (sigsetjmp(guard_env, 1) == 0) {
     guard_armed = 1;
+    setitimer(ITIMER_VIRTUAL, &tv, nullptr);
     f();
+    setitimer(ITIMER_VIRTUAL, &off, nullptr);
     guard_armed = 0;
     return true;
   }
+  setitimer(ITIMER_VIRTUAL, &off, nullptr);
   guard_armed = 0;
   if (cur) {
-    const char *nm = guard_sig == SIGSEGV ? "SEGV" : guard_sig == SIGBUS ? "BUS" : guard_sig == SIGFPE ? "FPE" : guard_sig == SIGILL ? "ILL" : guard_sig == SIGABRT ? "ABRT" : "SIG";
+    const char *nm = guard_sig == SIGVTALRM ? "HANG" : guard_sig == SIGSEGV ? "SEGV" : guard_sig == SIGBUS ? "BUS" : guard_sig == SIGFPE ? "FPE" : guard_sig == SIGILL ? "ILL" : guard_sig == SIGABRT ? "ABRT" : "SIG";
     cur->tainted = true;
     cur->crashed = true;
+    if (guard_sig == SIGVTALRM && !cur->feats.count("tiny_text")) {
+      // slow is not wrong: only on tiny inputs (where every call takes micro- to milliseconds) is a
+      // call that burns the whole CPU budget reported as non-termination; otherwise inconclusive
+      cur->conclusive = false;
+      cur->inconclusive_reason = "slow-op:" + cur->op;
+      cur->slow = true;
+      return false;
+    }
     std::string sig = std::string("sig/") + nm + "/" + cur->kind + "/" + cur->state + "/" + cur->op;
     cur->event("C07", (std::string("signal:") + nm).c_str(), std::string("fatal signal ") + nm + " inside " + cur->op, sig);
   }
